@@ -1,4 +1,5 @@
 (* C11 — Registration and lookup normalise paths identically. Property theorems only. *)
+From Rux Require Import Base Str Norm Table Reg Sys SysHistory SysEnd.
 From Rux Require Import Base Str Norm NormFacts.
 
 (* normalisation is total: it never panics, whatever the string, in both modes *)
@@ -49,6 +50,22 @@ Proof. exact strict_distinguishes. Qed.
 Theorem C11_legacy_F03_refuted : format_path_gen false false [32%N; 32%N] = Panic.
 Proof. exact legacy_ws_panics. Qed.
 
+(* end to end (SysEnd.v): ANY router looks a request up through the normal form of its path only - two spellings with the
+   same normal form get the same answer and leave the same router (cache included) behind; in particular on a router
+   built by any registration program, after any history *)
+Theorem C11_lookup_by_normal_form : forall rt m p1 p2,
+  format_path (o_strict (ropts rt)) p1 = format_path (o_strict (ropts rt)) p2 ->
+  quick_match rt m p1 = quick_match rt m p2.
+Proof. exact quick_spelling. Qed.
+
+Theorem C11_end_to_end : forall progs hooks o ss s h m p1 p2,
+  sys_build o ss = Ok s ->
+  format_path (o_strict o) p1 = format_path (o_strict o) p2 ->
+  let s' := sys_run progs hooks s h in
+  quick_match (s_rt s') m p1 = quick_match (s_rt s') m p2 /\
+  forall sc pooled, snd (sys_serve progs hooks s' m p1 sc pooled) = snd (sys_serve progs hooks s' m p2 sc pooled).
+Proof. exact sys_spelling. Qed.
+
 Print Assumptions C11_total.
 Print Assumptions C11_normal_form.
 Print Assumptions C11_reg_lookup.
@@ -58,3 +75,5 @@ Print Assumptions C11_reach.
 Print Assumptions C11_shape.
 Print Assumptions C11_strict_distinguishes.
 Print Assumptions C11_legacy_F03_refuted.
+Print Assumptions C11_lookup_by_normal_form.
+Print Assumptions C11_end_to_end.
